@@ -1,4 +1,5 @@
 import ServlinVerif.Props.C04
+import ServlinVerif.Props.C04Pipeline
 open Servlin.C04
 #print axioms C04_runs_per_request
 #print axioms C04_legacy_twice
@@ -6,3 +7,9 @@ open Servlin.C04
 #print axioms C04_closed_after_error
 #print axioms C04_error_status_closes
 #print axioms C04_not_ready_stops
+open Servlin.C04P
+#print axioms C04_exchange
+#print axioms C04_pipeline
+#print axioms C04_pipeline_eof
+#print axioms good_plain
+#print axioms good_plain_length
